@@ -5,18 +5,43 @@ import (
 	"math/rand/v2"
 	"os"
 	"testing"
+
+	"verif/vrt"
 )
 
+func dbgMix(a, b uint64) uint64 {
+	x := a ^ (b + 0x9e3779b97f4a7c15 + (a << 6) + (a >> 2))
+	x ^= x >> 30
+	x *= 0xbf58476d1ce4e5b9
+	x ^= x >> 27
+	x *= 0x94d049bb133111eb
+	x ^= x >> 31
+	return x
+}
+
+// TestDump prints the sources of one case (debugging aid): C08_DUMP="<VERIF_SEED> <batch>"
+// reproduces case 0 of that batch exactly as the worker draws it.
 func TestDump(t *testing.T) {
 	if os.Getenv("C08_DUMP") == "" {
 		t.Skip()
 	}
-	var s uint64
-	fmt.Sscan(os.Getenv("C08_DUMP"), &s)
-	r := rand.New(rand.NewPCG(s, s*7+1))
-	c := genCase(r, mustList[int(s)%len(mustList)])
+	var seed uint64
+	var batch int
+	fmt.Sscan(os.Getenv("C08_DUMP"), &seed, &batch)
+	s := dbgMix(dbgMix(dbgMix(seed, vrt.Hash64("C08")), uint64(batch)), 0)
+	r := rand.New(rand.NewPCG(s, dbgMix(s, 0x5851f42d4c957f2d)))
+	c := genCase(r, mustList[batch%len(mustList)])
 	for _, p := range c.Pkgs {
 		fmt.Println("=====", p.Name)
+		for _, x := range p.Derives {
+			fmt.Printf("derive %s %s.%s rec=%v implicit=%v\n", x.TC, x.Decl.Pkg.Name, x.Decl.Name, x.Recursive, x.Implicit)
+		}
+		for _, o := range p.Overrides {
+			fmt.Printf("override %s %s %s %s\n", o.TC, o.Name, o.Target, o.Variant)
+		}
+		if os.Getenv("C08_DUMP_SRC") == "" {
+			continue
+		}
 		fmt.Println(emitPkg(p))
 		var tgs []lawTarget
 		for _, x := range p.Derives {
